@@ -48,9 +48,24 @@ func main() {
 		r := hx.Rng(*seed, s)
 		h := nhx.NewDrummerDBHost()
 		n := 2 + r.Intn(4)
-		ms := []*drummer.VerifElection{}
+		ms := []guarded{}
+		var schedNow *[]string // the schedule of the implementation-only phase in progress (for the replay of a crashed turn)
+		var panicMu sync.Mutex
 		for i := 0; i < n; i++ {
-			ms = append(ms, drummer.VerifNewElection(h.NH, uint64(i+1)))
+			i := i
+			ms = append(ms, guarded{VerifElection: drummer.VerifNewElection(h.NH, uint64(i+1)), onPanic: func(rec interface{}) {
+				// a turn of the election state machine never crashes, whatever the other servers did in between
+				panicMu.Lock()
+				defer panicMu.Unlock()
+				sched := []string{fmt.Sprintf("%d servers; sequence %d of the op stream, then:", n, s)}
+				if schedNow != nil {
+					sched = append(sched, *schedNow...)
+				}
+				sched = append(sched, fmt.Sprintf("turn %d: panic %v", i+1, rec))
+				run.Count("c14:turn_panicked")
+				run.Violate(hx.Violation{Property: "C14", Clause: "turn_never_crashes", Signature: "election-turn-panicked", Seq: s,
+					What: fmt.Sprintf("a turn of server %d crashed: %v", i+1, rec), Ops: sched})
+			}})
 		}
 		run.OpLine(map[string]interface{}{"op": "new", "n": n})
 		run.OutLine("new")
@@ -390,6 +405,7 @@ func main() {
 		// alone keeps taking turns: it has to become leader within the bound, whatever happened before.
 		for rep := 0; rep < 3; rep++ {
 			sched := []string{}
+			schedNow = &sched
 			bg := func(i int) {
 				ms[i].TurnCtx(context.Background())
 				sched = append(sched, fmt.Sprintf("turn %d", i+1))
@@ -493,6 +509,7 @@ func main() {
 			}
 			k := 2 + r.Intn(2)
 			sched := []string{fmt.Sprintf("%d servers, holder %d silent; followers %d and %d in lock step", n, inst, a+1, b+1)}
+			schedNow = &sched
 			for rd := 0; rd < takeoverBound+4; rd++ {
 				wasA, wasB := views()[a].leader, views()[b].leader
 				sc := newStepCtx(k, 0)
@@ -550,6 +567,7 @@ func main() {
 		// then with a holder that had stepped down after a failed read and is resuming.
 		if n >= 2 {
 			sched := []string{}
+			schedNow = &sched
 			holderID, _ := record()
 			for try := 0; try < 14 && (holderID == 0 || !views()[holderID-1].leader); try++ {
 				for q := 0; q < n; q++ {
@@ -604,12 +622,94 @@ func main() {
 				}
 			}
 		}
+		// phase 6b (implementation only): a campaigner overtaken between its vote and its read-back. Y has watched the
+		// silent holder X for long enough and campaigns; its vote is accepted and Y is paused before it reads the record back;
+		// meanwhile X comes back, finds the record naming Y, follows, sees the record stand still and campaigns against Y in
+		// turn, and wins. Y's read-back then shows X's id: Y has not "read or written the record with its own id" as the last
+		// thing it did and must not regard itself as leader.
+		if n >= 2 {
+			sched := []string{}
+			schedNow = &sched
+			holderID, _ := record()
+			for try := 0; try < 14 && (holderID == 0 || !views()[holderID-1].leader); try++ {
+				for q := 0; q < n; q++ {
+					ms[q].TurnCtx(context.Background())
+				}
+				holderID, _ = record()
+			}
+			if holderID != 0 && views()[holderID-1].leader {
+				X := int(holderID - 1)
+				Y := (X + 1 + r.Intn(n-1)) % n
+				sched = append(sched, fmt.Sprintf("%d servers; record names %d, which is leader; only servers %d and %d take turns from here", n, X+1, X+1, Y+1))
+				for t := 0; t < 12; t++ {
+					if _, has, ci, _, st := ms[Y].View(); has && ci == uint64(X+1) && st >= 3 {
+						break
+					}
+					ms[Y].TurnCtx(context.Background())
+					sched = append(sched, fmt.Sprintf("turn %d", Y+1))
+				}
+				sc := newStepCtx(3, 0)
+				done := make(chan struct{})
+				go func() { ms[Y].TurnCtx(sc); close(done) }()
+				select {
+				case <-sc.paused:
+					run.Count("case:campaigner_paused_before_read_back")
+					// the overtaker: a third server when there is one (the old holder stays silent), else the old holder itself
+					Z := X
+					if n >= 3 {
+						for Z == X || Z == Y {
+							Z = r.Intn(n)
+						}
+					}
+					if inst, _ := record(); inst == uint64(Y+1) {
+						sched = append(sched, fmt.Sprintf("turn %d: reads the record, votes for itself (accepted), paused before reading the record back", Y+1))
+						for t := 0; t < 16; t++ {
+							ms[Z].TurnCtx(context.Background())
+							sched = append(sched, fmt.Sprintf("turn %d", Z+1))
+							if inst, _ := record(); inst == uint64(Z+1) {
+								break
+							}
+						}
+					}
+					close(sc.resume)
+					<-done
+					sched = append(sched, fmt.Sprintf("turn %d resumed: reads the record back", Y+1))
+					if inst, _ := record(); inst == uint64(Z+1) {
+						run.Count(fmt.Sprintf("c14:campaigner_overtaken_before_read_back_third_server_%v", Z != X))
+						if views()[Y].leader {
+							run.Violate(hx.Violation{Property: "C14", Clause: "leader_only_after_own_id", Signature: "leader-after-reading-another-holder", Seq: s,
+								What: fmt.Sprintf("server %d regards itself as leader at the end of a turn whose last operation read an election record naming %d (which took the record over while %d was between its vote and its read-back)", Y+1, Z+1, Y+1),
+								Ops:  append([]string{}, sched...)})
+						}
+					}
+				case <-done:
+					run.Count("c14:inconclusive_campaign_pause")
+				}
+			}
+		}
+		schedNow = nil
 		run.Nontrivial(fmt.Sprintf("%d", s))
 		if s == 0 {
 			run.Sample(ops[:min(len(ops), 8)])
 		}
 		h.Close()
 	}
+}
+
+// guarded wraps a server's election state machine: a turn taken under a harness context that panics is recorded as a
+// finding (with the schedule that led to it) instead of killing the harness
+type guarded struct {
+	*drummer.VerifElection
+	onPanic func(rec interface{})
+}
+
+func (g guarded) TurnCtx(c context.Context) {
+	defer func() {
+		if rec := recover(); rec != nil {
+			g.onPanic(rec)
+		}
+	}()
+	g.VerifElection.TurnCtx(c)
 }
 
 // stepCtx is a context that counts the DB operations started under it (every operation of the election code derives its
